@@ -345,8 +345,10 @@ def check_C18(work, prop, tier, seed, t0):
         for j, vt in enumerate(vts):
             if q and (i + j) % 2 == 1 and vt not in ("ptr", "rich"):
                 continue
-            jobs.append(Job("gc:%s:%s" % (k, vt), "checkptr", ["gc", "-kind", k, "-u", u, "-vt", vt, "-seed", str(seed), "-n", str(2 if q else 6),
-                                                               "-len", str(60 if q else 200)], env={"GOGC": "1"}))
+            # strings of 1000+ characters: every dump carries sort keys of several KiB, so these histories stay short
+            n, ln = (2, 60) if (q or u == "textlong") else (6, 200)
+            jobs.append(Job("gc:%s:%s" % (k, vt), "checkptr", ["gc", "-kind", k, "-u", u, "-vt", vt, "-seed", str(seed), "-n", str(n),
+                                                               "-len", str(ln)], env={"GOGC": "1"}))
     return env_check(work, prop, tier, seed, t0, jobs, TREE_INVS, model_runs,
                      "value-type matrix (int, string, *struct, []byte, zero-size, 200-byte struct, struct with pointers) x tree kinds; GC percent 1, "
                      "forced collections between operations, garbage pressure, checkptr instrumentation; every stored key and value deep-compared "
